@@ -282,7 +282,16 @@ class LRI(dict):
             self._init_ll()
 
     def copy(self):
-        return self.__class__(max_size=self.max_size, values=self)
+        with self._lock:
+            ret = self.__class__(max_size=self.max_size)
+            # walk the linked list oldest to newest rather than looking
+            # keys up, which would count as hits (and reorder an LRU)
+            anchor = self._anchor
+            link = anchor[NEXT]
+            while link is not anchor:
+                ret[link[KEY]] = link[VALUE]
+                link = link[NEXT]
+        return ret
 
     def setdefault(self, key, default=None):
         with self._lock:
